@@ -8,6 +8,7 @@ package main
 
 import (
 	"bufio"
+	"bytes"
 	"encoding/json"
 	"fmt"
 	"io"
@@ -15,6 +16,7 @@ import (
 	"runtime"
 	"runtime/debug"
 	"sort"
+	"strings"
 	"sync"
 	"sync/atomic"
 	"time"
@@ -221,6 +223,13 @@ func runVector(v *Vector, seed int64, wantTrace bool) VecResult {
 			if hardSoFar() { // a consequence of the failure already recorded for this behaviour, not an infrastructure error
 				return res
 			}
+			// the expectation refers to what this very call was to deliver (the public value it returns, ...) and the call
+			// failed although the behaviour says it succeeds: that is the finding
+			if st.Expect["err"] == false && obs["err"] == true {
+				msg, _ := obs["errmsg"].(string)
+				res.Failures = append(res.Failures, Failure{Vid: v.ID, Step: i + 1, Act: st.Act, Prop: st.Prop, Key: "err", Got: "true", Want: "false", Sig: "err@" + normMsg(msg)})
+				return res
+			}
 			res.Infra++
 			res.Failures = append(res.Failures, Failure{Vid: v.ID, Step: i + 1, Act: st.Act, Infra: "expect: " + err.Error()})
 			return res
@@ -350,6 +359,49 @@ type Summary struct {
 	SigCounts map[string]int `json:"sig_counts"`
 }
 
+// -fams / -perfam: a pass over selected vector families only (the single-processor pass of bin/check: with one P every
+// sync.Pool has one slot, so an object a failed call put back tainted is the one the next call gets)
+var (
+	famFilter []string
+	famCap    int
+	famKept   = map[string]int{}
+	famSeen   = map[string]int{}
+)
+
+func famWanted(line []byte) bool {
+	if famFilter == nil {
+		return true
+	}
+	i := bytes.Index(line, []byte(`"fam":"`))
+	if i < 0 {
+		return false
+	}
+	rest := line[i+7:]
+	j := bytes.IndexByte(rest, '"')
+	if j < 0 {
+		return false
+	}
+	fam := string(rest[:j])
+	ok := false
+	for _, p := range famFilter {
+		if strings.HasPrefix(fam, p) {
+			ok = true
+		}
+	}
+	if !ok {
+		return false
+	}
+	famSeen[fam]++
+	if famCap > 0 {
+		// the first half of the allowance goes to the first vectors of the family, the rest is spread over what follows
+		if famKept[fam] >= famCap || (famKept[fam] >= famCap/2 && famSeen[fam]%41 != 0) {
+			return false
+		}
+	}
+	famKept[fam]++
+	return true
+}
+
 func replayMain(in io.Reader, tracePath, outPath string, seed int64, workers int, maxFail int) int {
 	t0 := time.Now()
 	var traceW *bufio.Writer
@@ -402,6 +454,9 @@ func replayMain(in io.Reader, tracePath, outPath string, seed int64, workers int
 		for sc.Scan() {
 			line := sc.Bytes()
 			if len(line) == 0 {
+				continue
+			}
+			if !famWanted(line) {
 				continue
 			}
 			var v Vector
